@@ -21,6 +21,7 @@ another overlay does) and lets both overlays send once more, judged by the same 
 """
 from __future__ import annotations
 
+import base64
 import gc
 import os
 import random
@@ -39,6 +40,8 @@ from ipv8.messaging.anonymization.tunnel import (
 )
 from ipv8.messaging.interfaces.udp.endpoint import UDPv4Address
 from ipv8.messaging.lazy_payload import VariablePayload, vp_compile
+
+from ipv8_service import IPv8
 
 from .. import core, fixtures, simnet
 from ..tunnelworld import EXIT_ALL, EXIT_BT, RELAY
@@ -179,10 +182,6 @@ class C07World(simnet.World):
 
     def _via_service(self, node, statistics: bool):  # noqa: ANN001, ANN202
         """Node N as ipv8_service.IPv8 builds it (mirrors mc.tunnelworld.TunnelWorld._make_via, three overlays)."""
-        import base64  # noqa: PLC0415
-
-        from ipv8_service import IPv8  # noqa: PLC0415
-
         def entry(cls, **init) -> dict:  # noqa: ANN001, ANN003
             return {"class": cls.__name__, "key": "k", "walkers": [], "bootstrappers": [], "initialize": init, "on_start": []}
 
@@ -734,17 +733,19 @@ WITNESSES = [
 ]
 
 
-def configs(ctx: core.Ctx) -> list[tuple[str, list, int, int]]:
-    """(name, alphabet, depth, max circuits started by build events)."""
-    cfg = ([("core", CORE, 9, 2), ("full", FULL, 5, 3), ("life", LIFE, 8, 2)] if ctx.thorough else
-           [("core", CORE_QUICK, 7, 2), ("full", FULL, 4, 3), ("life", LIFE, 5, 2)])
+def configs(ctx: core.Ctx) -> list[tuple[str, list, int, int, str]]:
+    """(name, alphabet, depth, max circuits started by build events, construction route of node N)."""
+    cfg = ([("core", CORE, 9, 2, "wired"), ("full", FULL, 5, 3, "wired"), ("life", LIFE, 8, 2, "wired"),
+            ("service", FULL, 4, 3, "service"), ("service+stats", FULL, 4, 3, "service+stats")] if ctx.thorough else
+           [("core", CORE_QUICK, 7, 2, "wired"), ("full", FULL, 4, 3, "wired"), ("life", LIFE, 5, 2, "wired"),
+            ("service", FULL, 3, 3, "service"), ("service+stats", FULL, 3, 3, "service+stats")])
     cap = int(os.environ.get("C07_MAX_DEPTH", "0") or 0)     # screening aid (mutant runs); reported as not exhaustive
-    return [(n, a, min(d, cap) if cap else d, mc) for n, a, d, mc in cfg]
+    return [(n, a, min(d, cap) if cap else d, mc, route) for n, a, d, mc, route in cfg]
 
 
-def run_history(seed: int, history: list) -> tuple[list, list, dict]:
+def run_history(seed: int, history: list, route: str = "wired") -> tuple[list, list, dict]:
     """Plain replay of one history with the oracle after every step: (violations, observations, fates)."""
-    m = Model(seed, EVERYTHING)
+    m = Model(seed, EVERYTHING, route=route)
     w = m.initial()
     viol, obs_log = [], []
     try:
@@ -788,8 +789,8 @@ def run(ctx: core.Ctx) -> core.Report:
     total_states = total_trans = outcomes = 0
     runs, violations, samples = [], [], []
     exhaustive = True
-    for name, alphabet, depth, max_circuits in configs(ctx):
-        model = Model(seed, alphabet, max_circuits, fork=True)
+    for name, alphabet, depth, max_circuits, route in configs(ctx):
+        model = Model(seed, alphabet, max_circuits, fork=True, route=route)
         r = core.bfs(model, depth, ctx.jobs, chunk=4)
         model.drop_cache()
         self_check(model, r["samples"])
@@ -797,13 +798,14 @@ def run(ctx: core.Ctx) -> core.Report:
         total_trans += r["transitions"]
         outcomes += r["distinct_outcomes"]
         exhaustive &= not r["capped"] and not os.environ.get("C07_MAX_DEPTH")
-        runs.append({"name": name, "alphabet": [list(e) for e in alphabet], "depth": r["completed_depth"],
+        runs.append({"name": name, "route": route, "alphabet": [list(e) for e in alphabet], "depth": r["completed_depth"],
                      "max_circuits_started_by_build_events": max_circuits, "states": r["states"],
                      "transitions": r["transitions"], "levels": r["levels"], "fixpoint": r["fixpoint"],
                      "distinct_observations": r["distinct_outcomes"]})
         samples.extend(r["samples"][:1])
         for v in r["violations"]:
-            v.replay = {"seed": seed, "history": v.replay["history"]}
+            v.replay = {"seed": seed, "route": route, "history": v.replay["history"]}
+            v.key += "" if route == "wired" else f"|route:{route}"
             violations.append(v)
     # vacuity witnesses: scripted histories whose observations show that every class of behaviour really occurs
     witnesses = []
@@ -857,9 +859,11 @@ def run(ctx: core.Ctx) -> core.Report:
 
 
 def replay(ctx: core.Ctx, data: dict) -> list:
-    viol, _, _ = run_history(data["seed"], [tuple(e) for e in data["history"]])
+    route = data.get("route", "wired")
+    viol, _, _ = run_history(data["seed"], [tuple(e) for e in data["history"]], route)
     out, seen = [], set()
     for k, what in viol:
+        k += "" if route == "wired" else f"|route:{route}"
         if k not in seen:
             seen.add(k)
             out.append(core.Violation(k, what))
